@@ -618,7 +618,8 @@ def check_main(tier, seed, args):
             if tier == "quick":
                 plan = quick_plan(seed, args)
                 tasks = interleave([list(chunks(st, seed, idx, want_fp=True)) for st, idx in plan])
-                run_tasks(pool, tasks, batch, max_violating_chunks=40)
+                # VERIF_STOP_EARLY (used by tools/run_seeded.py): a handful of failing histories is enough
+                run_tasks(pool, tasks, batch, max_violating_chunks=4 if os.environ.get("VERIF_STOP_EARLY") == "1" else 40)
             else:
                 sweep_info = thorough_batch(pool, seed, args, batch)
             vlines, klines, h2 = handle_violations(seed, batch, pool)
